@@ -29,7 +29,7 @@ func init() {
 	engine.Register(&engine.Property{
 		ID:    "C15",
 		Level: "exploration",
-		Rule: "every constructor of itertools on ALL parameters up to the tier bound (n <= 7 quick / 9 thorough; k = 0..n+3; all multiplicity / factor vectors of length <= 4 (<= 6 for small sums) with the given sum, zeros and repeats included; " +
+		Rule: "every constructor of itertools on ALL parameters up to the tier bound (n <= 8 quick / 9 thorough; k = 0..n+3; all multiplicity / factor vectors of length <= 4 (<= 6 for small sums) with the given sum, zeros and repeats included; " +
 			"extended ranges for the cheap families), predicate-driven iterators with a fixed table of predicates plus seeded hash predicates on the prefix contents and fixed plus seeded sub-orders of 0<1<...<n-1. " +
 			"Each iterator is driven for at most |expected|+1+3 calls of Next; every Value is copied at once and compared with a naive reference list (exact sequence where an order is documented, as a set otherwise), " +
 			"then three further Next calls must return false. non-trivial = the expected family has >= 2 objects and, for predicate-driven iterators, the predicate rejected at least one argument; distinct = hash of (constructor, parameters, predicate)",
